@@ -14,13 +14,15 @@ PROPERTY CountersMonotone
 """
 STEP_TEXT = {'PUSHNAT': 'PUSH nat 7', 'PUSHOPT': 'PUSH (option nat) (Some 1)', 'PUSHSTR': 'PUSH string "k"', 'EMPTYBM': 'EMPTY_BIG_MAP string nat', 'UPDATE': 'UPDATE',
              'BEGIN': 'BEGIN Unit {}', 'CDR': 'CDR', 'NILOP': 'NIL operation', 'PAIR': 'PAIR', 'COMMIT': 'COMMIT', 'DROP': 'DROP', 'DROPALL': 'DROP_ALL',
-             'STORAGE': 'storage (big_map string nat)'}
+             'STORAGE': 'storage (big_map string nat)', 'PARAMBM': 'parameter (big_map string nat)', 'BEGINPTR': 'BEGIN 5 {}'}
 STEPS = {'push': ['PUSHNAT'], 'newbm': ['EMPTYBM'], 'newbm2': ['EMPTYBM', 'PUSHOPT', 'PUSHSTR', 'UPDATE'], 'upd': ['PUSHOPT', 'PUSHSTR', 'UPDATE'], 'begin': ['BEGIN'],
-         'commit': ['CDR', 'PUSHOPT', 'PUSHSTR', 'UPDATE', 'NILOP', 'PAIR', 'COMMIT'], 'drop': ['DROP'], 'dropall': ['DROPALL'], 'storage': ['STORAGE']}
+         'commit': ['CDR', 'PUSHOPT', 'PUSHSTR', 'UPDATE', 'NILOP', 'PAIR', 'COMMIT'], 'drop': ['DROP'], 'dropall': ['DROPALL'], 'storage': ['STORAGE'], 'parambm': ['PARAMBM'], 'beginptr': ['BEGINPTR']}
 
 
 def cell_text(c, fp):
     steps = [STEP_TEXT[s] for s in STEPS[c]]
+    if c == 'parambm':
+        return steps[0] if fp == -1 else 'parameter (big_map (list nat) nat)'
     if c == 'storage':
         # a section declaration cannot be mixed with instructions: the failing variant is an ill-formed declaration
         return steps[0] if fp == -1 else 'storage (big_map (list nat) nat)'
@@ -36,7 +38,7 @@ def item_abs(item):
         return ('bm', item.ptr)
     if prim == 'pair':
         a, b = item.items
-        if b.prim == 'big_map' and a.prim == 'unit':
+        if b.prim == 'big_map' and a.prim in ('unit', 'big_map'):
             return ('begun', b.ptr)
         if b.prim == 'big_map' and a.prim == 'list':
             return ('res', b.ptr)
@@ -81,7 +83,7 @@ def run_session(hist, drop_failing=False):
 
 def compare(ctx, st):
     hist = st['hist']
-    case = {'hist': to_json(hist), 'stack': to_json(st['stack']), 'tmp': st['tmp'], 'alloc': st['alloc'], 'commits': to_json(st['commits'])}
+    case = {'hist': to_json(hist), 'stack': to_json(st['stack']), 'tmp': st['tmp'], 'alloc': st['alloc'], 'commits': to_json(st['commits']), 'regs': sorted(list(x) for x in (st.get('regs') or []))}
     desc = 'session %s' % json.dumps([cell_text(c, fp) for c, fp in hist])
     with_f = run_session(hist)
     without = run_session(hist, drop_failing=True)
@@ -116,10 +118,12 @@ def compare(ctx, st):
         last = with_f[-1]
         model_stack = tuple(tuple(x) for x in st['stack'])
         got_ids = [d[0] for o in with_f if o['commit'] for d in o['commit']] if all(isinstance(o['commit'], (list, type(None))) for o in with_f) else None
-        if last['stack'] != model_stack or last['tmp'] != st['tmp'] or last['alloc'] != st['alloc'] or got_ids != [str(x) for x in st['commits']]:
+        model_regs = sorted(tuple(x) for x in st['regs']) if st.get('regs') else []
+        got_regs = sorted((k, v[0]) for k, v in last['big_maps'].items())
+        if last['stack'] != model_stack or last['tmp'] != st['tmp'] or last['alloc'] != st['alloc'] or got_ids != [str(x) for x in st['commits']] or got_regs != model_regs:
             if ok:    # report the model disagreement only when the differential comparison did not already explain it
                 ctx.mismatch('C22:differs-from-model', '%s: stack %r tmp %s alloc %s commit ids %s; model stack %r tmp %s alloc %s commits %s' % (
-                    desc, last['stack'], last['tmp'], last['alloc'], got_ids, model_stack, st['tmp'], st['alloc'], list(st['commits'])), case)
+                    desc, last['stack'], last['tmp'], last['alloc'], (got_ids, got_regs), model_stack, st['tmp'], st['alloc'], (list(st['commits']), model_regs)), case)
                 ok = False
     return ok
 
@@ -163,7 +167,7 @@ def run(ctx):
 def replay(ctx, rep):
     c = rep['case']
     tup = lambda x: tuple(tup(y) for y in x) if isinstance(x, list) else x
-    st = {'hist': tup(c['hist']), 'stack': tup(c['stack']), 'tmp': c['tmp'], 'alloc': c['alloc'], 'commits': tup(c['commits'])}
+    st = {'hist': tup(c['hist']), 'stack': tup(c['stack']), 'tmp': c['tmp'], 'alloc': c['alloc'], 'commits': tup(c['commits']), 'regs': set(tuple(x) for x in (c.get('regs') or []))}
     ok = compare(ctx, st)
     for m in ctx.mismatches:
         print('REPRODUCED', m.signature, m.detail[:900])
